@@ -376,7 +376,15 @@ def gen_guards(rng, length=None):
     for _ in range(n):
         k = rng.choice(opkinds)
         add_guard_op(rng, k, envs, ops)
-    return dict(envs=envs, ops=ops, files={0: b"data"})
+    scn = dict(envs=envs, ops=ops, files={0: b"data"})
+    if rng.random() < 0.25:
+        # a close() whose transport.close() raises, then more operations: judged by the oracle only (`available` must be False)
+        i = rng.randrange(0, len(ops) + 1)
+        ops.insert(i, dict(op="close", transport_close_raises=True))
+        for k in rng.sample(["shell", "stat", "pull"], 2):
+            add_guard_op(rng, k, envs, ops)
+        scn["oracle_only"] = True
+    return scn
 
 
 def add_guard_op(rng, k, envs, ops):
